@@ -22,7 +22,7 @@ def deci(xs: List[int], frac_rng: Optional[random.Random] = None) -> List[int]:
 
 def make_input(rng: random.Random, n_refs: int = 2, n_qry: int = 8, ref_labels=(80, 200), kinds=None,
                decimals: bool = True, repeats: bool = False, lattice: int = 0, small_ids: bool = False,
-               twins: bool = False, short_contigs: int = 0) -> Dict:
+               twins: bool = False, short_contigs: int = 0, labelless: bool = False) -> Dict:
     """small_ids: references 1..n and queries 1..m (query ids collide with reference ids)
     twins: some maps get a coincident label (two SiteIDs with the same Position: legal CMAP, e.g. two sites closer than
     the 0.1 bp resolution of the file)"""
@@ -203,6 +203,16 @@ def make_input(rng: random.Random, n_refs: int = 2, n_qry: int = 8, ref_labels=(
         qrys.append({"id": qid, "len": dq[-1] + rng.choice([1, 10]), "x": dq, "kind": "shortcontig", "ref": rid,
                      "mirrored": k % 2 == 0})
         qid += 1 if small_ids else rng.randint(1, 9)
+    if labelless:
+        # maps without any label (only the end-marker row, NumSites 0): valid CMAP; one reference with the smallest id
+        # (all other references follow it), one in the middle of the queries
+        low = min(r["id"] for r in refs) - 1
+        if low >= 1:
+            refs.insert(0, {"id": low, "len": rng.randint(2000000, 40000000), "x": [], "bp": []})
+        mid = qrys[len(qrys) // 2]["id"]
+        if all(q["id"] != mid + 1 for q in qrys) and not small_ids:
+            qrys.insert(len(qrys) // 2 + 1, {"id": mid + 1, "len": rng.randint(100000, 3000000), "x": [], "kind": "labelless",
+                                             "ref": 0, "mirrored": False})
     if twins:
         for m in refs + qrys:
             if len(m["x"]) >= 6 and rng.random() < 0.6:
@@ -232,8 +242,9 @@ def write_input(workdir: str, inp: Dict, name: str, shuffle_rng=None, qsel=None,
 
 
 def run_once(workdir: str, rp: str, qp: str, tag: str, mode: str, extra: Optional[Dict] = None, cli: bool = False,
-             cpus: int = 1, record: bool = False, qids=None, rids=None, real_pool: bool = False, hashseed=None) -> Dict:
-    out = os.path.join(workdir, f"{tag}.xmap")
+             cpus: int = 1, record: bool = False, qids=None, rids=None, real_pool: bool = False, hashseed=None,
+             ext: str = ".xmap") -> Dict:
+    out = os.path.join(workdir, f"{tag}{ext}")       # ext="": an output path without extension (valid: -o results/aligned)
     files = pipeline.output_files(out, mode)
     for p in files.values():
         if os.path.exists(p):
